@@ -94,9 +94,17 @@ def modal_helpers():
 
 @functools.lru_cache(maxsize=None)
 def schema(logic, rc) -> Schema:
-    # in a rule body an operand stands for ANY sentence, a negation included: negative() of it cannot be decided from the token
-    old = R.NEGATIVE_OF_OPAQUE; R.NEGATIVE_OF_OPAQUE = 'outside'
-    try: return _schema(logic, rc)
+    """the schema of the rule body.  In a rule body an operand stands for ANY sentence, a negation included, so negative() of an operand
+    has two readings: the body is interpreted once taking the operand for a non-negation (negative = negate) and, when it asked at all,
+    once more taking it for a negation (negative = what it negates); the second schema is sc.alt and gets obligations of its own"""
+    old = R.NEGATIVE_OF_OPAQUE
+    try:
+        R.NEGATIVE_OF_OPAQUE = 'neg'; R.NEGATIVE_USED = False
+        sc = _schema(logic, rc)
+        if R.NEGATIVE_USED and not sc.error:
+            R.NEGATIVE_OF_OPAQUE = 'unneg'
+            sc.alt = _schema(logic, rc)
+        return sc
     finally: R.NEGATIVE_OF_OPAQUE = old
 
 def _schema(logic, rc) -> Schema:
@@ -219,6 +227,10 @@ def ev(t: STerm, cx: Ctx, world=None):
             img = image_occ(t.b[0], cx, 'world')
             return zs.gen('poss' if name == 'Possibility' else 'nec', img)
         return zs.op(name, *[ev(x, cx, world) for x in t.b])
+    if t.kind == 'unneg':
+        k = repr(t)
+        if k in getattr(cx, 'unneg', {}): return cx.unneg[k]
+        raise Outside('the operand of a stripped negation is unbound here')
     if t.kind == 'quant':
         cx2 = cx
         img = image_occ(t.c, cx, 'inst')
@@ -261,16 +273,50 @@ def _groups_of(sc: Schema):
     if found is None: raise Outside('rule body yields no target on any path')
     return found[0], found[2]
 
+def _unneg_terms(t, out):
+    if not isinstance(t, STerm): return out
+    if t.kind == 'unneg':
+        if all(repr(t) != repr(x) for x in out): out.append(t)
+        return out
+    if t.kind == 'op':
+        for x in t.b: _unneg_terms(x, out)
+    elif t.kind == 'quant': _unneg_terms(t.c, out)
+    return out
+
 def _node_sat(zs, n: NodeVal, cx: Ctx):
     if 'sentence' not in n.props: return z3.BoolVal(True)        # access nodes: satisfied by construction of the variant
-    v = ev(n.props['sentence'], cx, n.props.get('world'))
-    return sat_node(zs, v, n.props.get('designated'))
+    s_ = n.props['sentence']
+    us = _unneg_terms(s_, [])
+    if not us:
+        v = ev(s_, cx, n.props.get('world'))
+        return sat_node(zs, v, n.props.get('designated'))
+    # the operand x is a negation ¬y: y has SOME value u with neg(u) = value(x); the node must be satisfied for every such u
+    cl = []
+    for combo in itertools.product(zs.vals, repeat=len(us)):
+        cx2 = Ctx(zs, atoms=cx.atoms, inst=cx.inst, occ=cx.occ, world_atoms=cx.world_atoms, node_world=cx.node_world)
+        cx2.unneg = {repr(t): z3.IntVal(CODE[u]) for t, u in zip(us, combo)}
+        pre = z3.And(*[zs.op('Negation', z3.IntVal(CODE[u])) == ev(t.a, cx, n.props.get('world')) for t, u in zip(us, combo)])
+        v = ev(s_, cx2, n.props.get('world'))
+        cl.append(z3.Implies(pre, sat_node(zs, v, n.props.get('designated'))))
+    return z3.And(*cl)
 
 def _occ_vars(zs, pfx='occ'):
     return {v: z3.Bool(f'{pfx}_{S.NAME[v]}') for v in zs.vals}
 
 def exactness(sc: Schema, prefix: str, where: str):
-    """-> list[Obligation] named <prefix>.forward / <prefix>.backward"""
+    """-> list[Obligation] named <prefix>.forward / <prefix>.backward (and <prefix>.operand-negation.forward / .backward for the second
+    reading of a body that asked for negative() of an operand)"""
+    obs = _exactness(sc, prefix, where, False)
+    alt = getattr(sc, 'alt', None)
+    if alt is not None:
+        if alt.error: raise Outside(f'second reading of negative(): {alt.error}')
+        obs += _exactness(alt, prefix + '.operand-negation', where, True)
+    return obs
+
+def _neg_image(zs):
+    return sorted({zs.sem.op('Negation', v) for v in zs.vals}, key=lambda v: CODE[v])
+
+def _exactness(sc: Schema, prefix: str, where: str, operand_is_negation: bool):
     L = sc.logic.Meta.name
     sem = S.spec_of(L)
     zs = ZSem(sem)
@@ -280,7 +326,16 @@ def exactness(sc: Schema, prefix: str, where: str):
                 defined_in=[f.key for f in sc.funcs])
     obs = []
     def mk(suffix, goal, hyps, vars_, decode):
-        obs.append(Obligation(f'{prefix}.{suffix}', goal, hyps=hyps, where=where, meta=dict(meta, direction=suffix), decode=decode, enum_vars=vars_))
+        hy_ = list(hyps)
+        if operand_is_negation:
+            # this reading: the operands are negations, so they (and the body at every element / world) only take values negation yields
+            img = _neg_image(zs)
+            for x in vars_:
+                if z3.is_int(x): hy_.append(z3.Or(*[x == CODE[v] for v in img]))
+                elif z3.is_bool(x) and str(x).startswith('occ_'):
+                    v = next(k for k, nm in S.NAME.items() if nm == str(x)[4:])
+                    if v not in img: hy_.append(z3.Not(x))
+        obs.append(Obligation(f'{prefix}.{suffix}', goal, hyps=hy_, where=where, meta=dict(meta, direction=suffix, reading=('operands are negations' if operand_is_negation else None)), decode=decode, enum_vars=vars_))
     if sc.kind == 'operator':
         a, b = z3.Int('A'), z3.Int('B')
         cx = Ctx(zs, atoms=dict(A=a, B=b))
